@@ -16,6 +16,9 @@ fn alphabet(ft: FT, seed: u64) -> Vec<u64> {
         FT::B => vec![0, 1],
         FT::E(n) => (0..n as u64).collect(),
         FT::A(_) => vec![0, u64::MAX, 0x0807_0605_0403_0201, 0xf1e2_d3c4_b5a6_9788],
+        // a byte-wide argument takes every value (version numbers, type codes and flag bytes are compared with
+        // particular constants by plausible code); a 16-bit one every value up to 512 plus the set below
+        FT::U(bits) if bits <= 8 => (0..(1u64 << bits)).collect(),
         FT::U(bits) => {
             let mask = if bits >= 64 { u64::MAX } else { (1u64 << bits) - 1 };
             let mut v = vec![0, 1, mask, mask - 1, 0x0807_0605_0403_0201 & mask, 0xf1e2_d3c4_b5a6_9788 & mask];
@@ -24,6 +27,9 @@ fn alphabet(ft: FT, seed: u64) -> Vec<u64> {
             }
             v.push(splitmix(seed ^ 0x5151) & mask);
             v.push(splitmix(seed ^ 0xa7a7) & mask);
+            if bits == 16 {
+                v.extend(0..=512u64);
+            }
             v.sort();
             v.dedup();
             v
